@@ -20,7 +20,9 @@ REPO = os.environ.get('VERIF_REPO', '/repo')
 # unit -> function -> list of replays
 REGISTRY = {
     'cont': {'*': [dict(kind='egg', file='replays/cont/nested_containers.egg'), dict(kind='egg', file='replays/cont/nested_containers.egg', args=('--naive',)),
-                   dict(kind='egg', file='replays/cont/incremental_container_rebuild.egg')]},
+                   dict(kind='egg', file='replays/cont/incremental_container_rebuild.egg'),
+                   dict(kind='egg', file='replays/cont/map_keys_of_container_sort.egg'),
+                   dict(kind='egg', file='replays/cont/merged_container_parent_refresh.egg')]},
     'sched': {'*': [dict(kind='egg', file='replays/sched/schedules.egg')]},
     'merge': {'*': [dict(kind='egg', file='replays/merge/merge_and_subsume.egg'),
                     dict(kind='egg', file='replays/merge/parallel_in_batch_merge.egg', args=('-j', '4'), env={'EGGLOG_PARALLEL_TABLE_OP_CUTOFF': '0'}),
